@@ -4,7 +4,7 @@ import numpy as np
 from .. import posecase as pc, refenc
 from .c03 import make_file
 
-RULE = ("histories (length ≤ 12 quick / ≤ 40 thorough) over 6 files — two with byte-identical headers, one with a shorter and one with a longer header, one differing in the dimensions only, one (v0.1) differing in the version only — of the calls: read "
+RULE = ("histories (length ≤ 12 quick / ≤ 40 thorough) over 8 files — two with byte-identical headers, one with a shorter and one with a longer header, one differing in the dimensions only, one (v0.1) differing in the version only, two with headers above 10 KiB that agree on their first 10 KiB — of the calls: read "
         "(bytes or stream, full or windowed), Pose.copy(), PoseHeaderCache.clear_cache(), and every in-place edit the API allows on earlier results (dimensions attribute, focus(), "
         "renaming components / points, editing limbs / colours, dropping a component, writing into body arrays); after every call: the new result vs a cold read of the same bytes "
         "(oracle), all other live results unchanged (oracle), no shared mutable objects between live results (id()/np.shares_memory, oracle), and every live header vs the Lean store machine; "
@@ -23,7 +23,17 @@ def gen_files(rng):
         # make sure every point of frame 0 is observed somewhere so that focus() has data
         f["body"]["conf"][0] = 0x3F800000
     g = {"header": a["header"], "body": dict(a["body"], fps={"int": 30})}                                    # same header bytes except the version: a v0.1 recording
-    return [refenc.v02(x) for x in (a, b, c, d, e)] + [refenc.v01(g)], [a, b, c, d, e, g]
+    # two headers longer than the 10 KiB prefetch that agree on their first 10 KiB and differ only near the end (a last point name, a last colour)
+    big = {"name": pc.hx("face"), "format": pc.hx("XYC"), "points": [pc.hx("point_%04d" % i) for i in range(950)], "limbs": [[0, 1]], "colors": [[1, 2, 3]]}
+    tail1 = {"name": pc.hx("hand"), "format": pc.hx("XYC"), "points": [pc.hx("w"), pc.hx("t")], "limbs": [[0, 1]], "colors": [[9, 9, 9]]}
+    tail2 = {"name": pc.hx("hand"), "format": pc.hx("XYC"), "points": [pc.hx("w"), pc.hx("u")], "limbs": [[1, 0]], "colors": [[9, 9, 8]]}
+    hh1 = {"version": pc.V02, "width": 7, "height": 8, "depth": 0, "components": [big, tail1]}
+    hh2 = {"version": pc.V02, "width": 7, "height": 8, "depth": 0, "components": [big, tail2]}
+    h1 = {"header": hh1, "body": pc.gen_body(rng, hh1, frames=1, people=1)}
+    h2 = {"header": hh2, "body": pc.gen_body(rng, hh2, frames=1, people=1)}
+    for f in (h1, h2):
+        f["body"]["conf"][0] = 0x3F800000
+    return [refenc.v02(x) for x in (a, b, c, d, e)] + [refenc.v01(g)] + [refenc.v02(h1), refenc.v02(h2)], [a, b, c, d, e, g, h1, h2]
 
 
 def gen_history(rng, files, cases, n):
